@@ -967,7 +967,7 @@ def check_c15(c, result):
             continue
         rs, rows = d.get('result_set') or [], d.get('output') or []
         k = len(m_['from'].split(','))
-        if not rows or len(rs) != k * len(rows) or any(isinstance(v, dict) for r_ in rows for v in r_):
+        if not rows or len(rs) != k * len(rows) or any(not isinstance(r_, list) for r_ in rows) or any(isinstance(v, dict) for r_ in rows for v in r_):
             continue
         want = Counter()
         for i, r_ in enumerate(rows):
@@ -1008,8 +1008,8 @@ def check_c15(c, result):
         c.stats['c15_queries'] += 1
         for i, rowv in enumerate(rows):
             c.stats['c15_rows'] += 1
-            if len(rowv) != len(q['select']):
-                result.violations.append(payload_replay('C15', 'a row does not hold one value per SELECT item', [t], 'row %r for %d items' % (rowv, len(q['select'])), c.files))
+            if not isinstance(rowv, list) or len(rowv) != len(q['select']):
+                result.violations.append(payload_replay('C15', 'a row does not hold one value per SELECT item', [t], 'row %d of %d is %r for %d items' % (i, len(rows), rowv, len(q['select'])), c.files))
                 break
             bad = None
             for item, v in zip(q['select'], rowv):
